@@ -92,7 +92,7 @@ theorem updateAdvAck_idx (b : Int) (t : Tx) (κ f0 : Nat) (hκ : κ < 2147483648
     exact ⟨st', rfl⟩
   · intro hlt
     have : ¬ ((t0.forwardNeeded || decide (0 < k)) = true) := fun h => hlt (hnd.mp h)
-    simp only [this, if_false]
+    simp only [this]
     exact hft0
 
 /-- what `_update_advanced_peer_ack_point` leaves alone -/
